@@ -9,7 +9,7 @@ Python ints in the translation, hence the casts.
 namespace DirectVerif.Bridge.C17
 open DirectVerif DirectVerif.Shapes DirectVerif.Gen.C17
 
-private theorem pyOr_mult (n : Nat) : Shapes.pyOr ((n : Int) - 1) 15 + 1 = (mult16 n : Int) := by
+theorem pyOr_mult (n : Nat) : Shapes.pyOr ((n : Int) - 1) 15 + 1 = (mult16 n : Int) := by
   cases n with
   | zero => decide
   | succ k =>
@@ -70,7 +70,7 @@ theorem iwt_eq (r n : Int) : iwt_out_height r n = r * n ∧ iwt_out_width r n = 
 
 theorem dwt_slices_eq : dwt_slices = [[2, 0, 2], [2, 1, 2], [3, 0, 2], [3, 0, 2], [3, 1, 2], [3, 1, 2]] := by decide
 
-private theorem even1 (n : Nat) : (if (Int.fmod (n : Int) 2 != 0) then (1 : Int) else 0) = ((padEvenOut n - n : Nat) : Int) := by
+theorem even1 (n : Nat) : (if (Int.fmod (n : Int) 2 != 0) then (1 : Int) else 0) = ((padEvenOut n - n : Nat) : Int) := by
   simp only [padEvenOut, Int.fmod_eq_emod_of_nonneg _ (by decide : (0 : Int) ≤ 2), bne_iff_ne, ne_eq]
   split <;> omega
 
@@ -83,7 +83,7 @@ theorem pad_even_list_eq (h w : Nat) :
 theorem pad_modes_eq : mwcnn_pad_modes = ["reflect"] ∧ dub_pad_modes = ["reflect"] ∧ unet2d_pad_modes = ["reflect"] ∧
     unet3d_pad_modes = ["reflect"] := by decide
 
-private theorem up1 (o d : Nat) : (if ((o : Int) != (d : Int)) then (1 : Int) else 0) = ((upPad d o : Nat) : Int) := by
+theorem up1 (o d : Nat) : (if ((o : Int) != (d : Int)) then (1 : Int) else 0) = ((upPad d o : Nat) : Int) := by
   simp only [upPad, bne_iff_ne, ne_eq, Int.natCast_inj]
   split <;> rfl
 
